@@ -20,6 +20,7 @@ def regenerate(use_lastgood=()) -> dict:
     """write Tables.lean if (and only if) its content changed; returns the per-module status dict"""
     from . import tables_extract
     text, status = tables_extract.render_all(_src, use_lastgood=use_lastgood)
+    os.makedirs(os.path.join(LEAN_DIR, "FcGen"), exist_ok=True)
     path = os.path.join(LEAN_DIR, "FcGen", "Tables.lean")
     old = open(path, encoding="utf-8").read() if os.path.exists(path) else None
     if old != text:
